@@ -84,6 +84,7 @@ building data pipelines.`,
 	logger *agglog.AggLogger
 
 	doProfile, doTrace, verbose, projectLocked bool
+	lockedPath                                 string
 	debugOutput                                *os.File
 	stopProfiling                              func() error
 )
@@ -257,8 +258,9 @@ func lockProject(rootDir string) error {
 	// If we're already in the project root, we technically can use lockPath
 	// directly, but this approach explicitly requires we know the project
 	// root.
+	absLockPath := filepath.Join(rootDir, lockPath)
 	lockFile, err := os.OpenFile(
-		filepath.Join(rootDir, lockPath),
+		absLockPath,
 		// O_EXCL is key. If the file already exists, someone else has already
 		// claimed the file.
 		os.O_CREATE|os.O_RDWR|os.O_EXCL,
@@ -266,6 +268,9 @@ func lockProject(rootDir string) error {
 	)
 	if err == nil {
 		projectLocked = true
+		// Remember which file we created; the working directory is not
+		// necessarily the project root when we unlock.
+		lockedPath = absLockPath
 		return lockFile.Close()
 	}
 	if os.IsExist(err) {
@@ -283,7 +288,7 @@ func unlockProject() error {
 		// If os.Remove succeeds, we're unlocked. If it fails, we should be calling
 		// fatal(), and we don't want try unlocking again.
 		projectLocked = false
-		return os.Remove(lockPath)
+		return os.Remove(lockedPath)
 	}
 	return nil
 }
